@@ -432,31 +432,23 @@ theorem verifyMsg_inv (hinj : IdInj U) {cfg : Cfg} (hg : cfg.allGuard = true) {S
         exact verifyWith_inv hinj hg (S := { S with store := st }) this hrc _
     · exact hinv
 
-theorem setUpSigner_store (S : Station) (now : Nat) (a : SC) : (S.setUpSigner now a).1.store = S.store := by
-  unfold Station.setUpSigner; split <;> rfl
+theorem popRequested_store (S : Station) : (S.popRequested).1.store = S.store := by
+  unfold Station.popRequested
+  split
+  · rfl
+  · split <;> rfl
 
 @[simp] theorem signCam_store (S : Station) (now psid gt pl : Nat) : (S.signCam now psid gt pl).1.store = S.store := by
   unfold Station.signCam
-  simp only
-  cases hq : S.requestedAts with
-  | nil =>
-    simp only
-    cases Station.presentAt S.store.own psid with
-    | error e => rfl
-    | ok o => cases o with
-      | none => rfl
-      | some a => simp only; exact setUpSigner_store S now a
-  | cons x rest =>
-    simp only
-    cases caByH3 S.store x with
-    | none => rfl
-    | some ca =>
-      simp only
-      cases Station.presentAt S.store.own psid with
-      | error e => rfl
-      | ok o => cases o with
-        | none => rfl
-        | some a => simp only; exact setUpSigner_store _ now a
+  have := popRequested_store S
+  split
+  · rename_i h; rw [h] at this; exact this
+  · rename_i S1 rc h
+    rw [h] at this
+    split
+    · exact this
+    · exact this
+    · split <;> exact this
 
 @[simp] theorem signDenm_store (S : Station) (loc : Bool) (psid gt pl : Nat) :
     (S.signDenm loc psid gt pl).1.store = S.store := by
@@ -1058,6 +1050,867 @@ theorem unresolved_core {cfg : Cfg} {st st' : Store} {hs : Bool} {m : Msg} {o : 
       · simp only [Prod.mk.injEq] at h; exact h.1.symm
       · exact (hj h).elim
     · simp only [Prod.mk.injEq] at h; exact h.1.symm
+
+
+
+
+/-! ### SignService: what an emitted message looks like -/
+
+/-- header profile of an emitted message: exactly psid + generationTime, plus the listed optional fields -/
+structure BaseProfile (m : Msg) (psid gt pl : Nat) (a : SC) : Prop where
+  psid : m.psid = psid
+  genTime : m.genTime = some gt
+  noLearn : m.p2pcdLearn = false
+  noCrl : m.missingCrl = false
+  noExpiry : m.expiry = false
+  noEncKey : m.encKey = false
+  payload : m.payload = pl
+  sigFmt : m.sigFmtOk = true
+  sig : m.sigBy = some a.c.key
+
+theorem baseMsg_profile (psid gt pl : Nat) (a : SC) (sg : Signer) :
+    BaseProfile (Station.baseMsg psid gt pl a sg) psid gt pl a := ⟨rfl, rfl, rfl, rfl, rfl, rfl, rfl, rfl, rfl⟩
+
+theorem popRequested_spec (S : Station) :
+    (S.popRequested).1 = { S with requestedAts := S.requestedAts.tail } ∧
+    (∀ rc, (S.popRequested).2 = .ok rc →
+      rc = none ∨ ∃ x ca, S.requestedAts.head? = some x ∧ caByH3 S.store x = some ca ∧ rc = some ca.c) := by
+  unfold Station.popRequested
+  split
+  · rename_i h
+    refine ⟨?_, by intro rc hrc; simp only [Except.ok.injEq] at hrc; exact Or.inl hrc.symm⟩
+    cases S; simp_all
+  · rename_i x rest h
+    split
+    · rename_i ca hca
+      refine ⟨by simp [h], ?_⟩
+      intro rc hrc
+      simp only [Except.ok.injEq] at hrc
+      exact Or.inr ⟨x, ca, by simp [h], hca, hrc.symm⟩
+    · refine ⟨by simp [h], ?_⟩
+      intro rc hrc; simp at hrc
+
+/-- everything `sign_cam` decides, in one statement -/
+theorem signCam_ok {S S' : Station} {now psid gt pl : Nat} {m : Msg}
+    (h : S.signCam now psid gt pl = (S', .ok m)) :
+    ∃ a, Station.presentAt S.store.own psid = .ok (some a) ∧ BaseProfile m psid gt pl a ∧ m.genLoc = false ∧
+      m.inlineReq = S.inlineField ∧
+      (m.reqCert = none ∨ ∃ x ca, S.requestedAts.head? = some x ∧ caByH3 S.store x = some ca ∧ m.reqCert = some ca.c) ∧
+      S'.store = S.store ∧ S'.unknownAts = S.unknownAts ∧ S'.requestedAts = S.requestedAts.tail ∧ S'.hasSign = S.hasSign ∧
+      ((S.wantsCert now = true ∧ m.signer = .certs [a.c] ∧ S'.lastFull = now ∧ S'.reqOwn = false) ∨
+       (S.wantsCert now = false ∧ m.signer = .digest a.c.id ∧ S'.lastFull = S.lastFull ∧ S'.reqOwn = S.reqOwn)) := by
+  unfold Station.signCam at h
+  obtain ⟨hp1, hp2⟩ := popRequested_spec S
+  split at h
+  · simp at h
+  · rename_i S1 rc hpop
+    rw [hpop] at hp1 hp2
+    simp only at hp1
+    have hrc := hp2 rc rfl
+    subst hp1
+    split at h
+    · simp at h
+    · simp at h
+    · rename_i a hpa
+      refine ⟨a, hpa, ?_⟩
+      split at h
+      · rename_i hw
+        simp only [Prod.mk.injEq, Except.ok.injEq] at h
+        obtain ⟨h1, h2⟩ := h
+        subst h1 h2
+        exact ⟨⟨rfl, rfl, rfl, rfl, rfl, rfl, rfl, rfl, rfl⟩, rfl, rfl, hrc, rfl, rfl, rfl, rfl, Or.inl ⟨hw, rfl, rfl, rfl⟩⟩
+      · rename_i hw
+        simp only [Prod.mk.injEq, Except.ok.injEq] at h
+        obtain ⟨h1, h2⟩ := h
+        subst h1 h2
+        exact ⟨⟨rfl, rfl, rfl, rfl, rfl, rfl, rfl, rfl, rfl⟩, rfl, rfl, hrc, rfl, rfl, rfl, rfl,
+          Or.inr ⟨by simpa [Station.wantsCert] using hw, rfl, rfl, rfl⟩⟩
+
+theorem signDenm_ok {S S' : Station} {loc : Bool} {psid gt pl : Nat} {m : Msg}
+    (h : S.signDenm loc psid gt pl = (S', .ok m)) :
+    ∃ a, Station.presentAt S.store.own psid = .ok (some a) ∧ BaseProfile m psid gt pl a ∧ loc = true ∧ m.genLoc = true ∧
+      m.inlineReq = none ∧ m.reqCert = none ∧ m.signer = .certs [a.c] ∧ S' = S := by
+  unfold Station.signDenm at h
+  split at h
+  · simp at h
+  · rename_i hl
+    split at h
+    · simp at h
+    · simp at h
+    · rename_i a hp
+      simp only [Prod.mk.injEq, Except.ok.injEq] at h
+      obtain ⟨h1, h2⟩ := h
+      subst h1 h2
+      exact ⟨a, hp, ⟨rfl, rfl, rfl, rfl, rfl, rfl, rfl, rfl, rfl⟩, by simpa using hl, rfl, rfl, rfl, rfl, rfl⟩
+
+theorem signOther_ok {S S' : Station} {psid gt pl : Nat} {m : Msg}
+    (h : S.signOther psid gt pl = (S', .ok m)) :
+    ∃ a, Station.presentAt S.store.own psid = .ok (some a) ∧ BaseProfile m psid gt pl a ∧ m.genLoc = false ∧
+      m.inlineReq = none ∧ m.reqCert = none ∧ m.signer = .digest a.c.id ∧ S' = S := by
+  unfold Station.signOther at h
+  split at h
+  · simp at h
+  · simp at h
+  · rename_i a hp
+    simp only [Prod.mk.injEq, Except.ok.injEq] at h
+    obtain ⟨h1, h2⟩ := h
+    subst h1 h2
+    exact ⟨a, hp, baseMsg_profile .., rfl, rfl, rfl, rfl, rfl⟩
+
+theorem presentAt_some {l : List SC} {psid : Nat} {a : SC} (h : Station.presentAt l psid = .ok (some a)) :
+    a ∈ l ∧ psid ∈ a.c.appList := by
+  induction l with
+  | nil => simp [Station.presentAt] at h
+  | cons s rest ih =>
+    unfold Station.presentAt at h
+    split at h
+    · simp at h
+    · rename_i ps hps
+      split at h
+      · rename_i hc
+        simp only [Except.ok.injEq, Option.some.injEq] at h
+        subst h
+        exact ⟨by simp, by simpa [Cert.appList, hps] using hc⟩
+      · obtain ⟨h1, h2⟩ := ih h
+        exact ⟨by simp [h1], h2⟩
+
+
+
+
+/-! ### acceptance of honest messages -/
+
+/-- a ticket as the verify service wants it -/
+structure GoodTicket (cfg : Cfg) (a : SC) : Prop where
+  verifies : a.c.verify cfg a.att = true
+  isAT : a.c.isAT = true
+  vki : a.c.vkiVerif = true
+  keyP256 : a.c.keyP256 = true
+  keyUnc : a.c.keyUnc = true
+
+/-- a message honestly signed with ticket `c`: signature by its key, ITS-AID covered, generation time within validity,
+    header fields of its clause 7.1 profile -/
+structure HonestMsg (m : Msg) (c : Cert) : Prop where
+  sig : m.sigBy = some c.key
+  sigFmt : m.sigFmtOk = true
+  time : ∃ t, m.genTime = some t ∧ Station.withinValidity c t = true
+  psid : m.psid ∈ c.appList
+  noLearn : m.p2pcdLearn = false
+  noCrl : m.missingCrl = false
+  denm : m.psid = 37 → m.genLoc = true ∧ m.expiry = false ∧ m.encKey = false ∧ m.inlineReq = none ∧ m.reqCert = none
+  reqCertOk : ∀ c', m.reqCert = some c' → c'.issuer ≠ .other
+
+theorem judge_honest {cfg : Cfg} {m : Msg} {a : SC} (hg : GoodTicket cfg a) (hm : HonestMsg m a.c) :
+    Station.judge cfg m a = .ok { report := .success, certId := some a.c.id, plain := some m.payload } := by
+  obtain ⟨t, ht, hval⟩ := hm.time
+  unfold Station.judge
+  simp only [hg.verifies, hg.isAT, hg.vki, Bool.and_self, Bool.not_true, Bool.false_eq_true, if_false, ht,
+    hm.noLearn, hm.noCrl, Bool.or_self]
+  by_cases h37 : m.psid = 37
+  · obtain ⟨h1, h2, h3, h4, h5⟩ := hm.denm h37
+    have hb : (m.psid == 37) = true := by simpa using h37
+    simp [hb, h1, h2, h3, h4, h5, hval, hm.sigFmt, hg.keyP256, hg.keyUnc, hm.sig, hm.psid]
+  · have : (m.psid == 37) = false := by simpa using h37
+    simp [this, hval, hm.sigFmt, hg.keyP256, hg.keyUnc, hm.sig, hm.psid]
+
+theorem addAA_no_error {cfg : Cfg} {st : Store} {s : SC} (h : s.c.issuer ≠ .other) : ∃ st', st.addAA cfg s = .ok st' := by
+  unfold Store.addAA
+  split
+  · exact ⟨_, rfl⟩
+  · have : ∃ r, st.getIssuer s.c = .ok r := by
+      unfold Store.getIssuer
+      split
+      · exact ⟨_, rfl⟩
+      · exact ⟨_, rfl⟩
+      · exact ⟨_, rfl⟩
+      · rename_i ho; exact absurd ho h
+    obtain ⟨r, hr⟩ := this
+    rw [hr]
+    cases r <;> exact ⟨_, rfl⟩
+
+theorem onSuccess_no_error {cfg : Cfg} {S : Station} {m : Msg} (h : ∀ c', m.reqCert = some c' → c'.issuer ≠ .other) :
+    (S.onSuccess cfg m).2 = none := by
+  unfold Station.onSuccess
+  split
+  · rfl
+  · split
+    · rfl
+    · rename_i c hc
+      unfold Station.notifyReceivedCa
+      simp only
+      obtain ⟨st', hst⟩ := addAA_no_error (cfg := cfg) (st := (S.afterInline m).store) (s := ⟨c, none⟩) (h c hc)
+      simp only [afterInline_store] at hst ⊢
+      rw [hst]
+
+/-- with a good ticket resolved, an honest message is accepted and its payload handed over unchanged -/
+theorem verifyWith_honest {cfg : Cfg} {S : Station} {m : Msg} {a : SC} (hg : GoodTicket cfg a) (hm : HonestMsg m a.c) :
+    (S.verifyWith cfg m a).2 = .ok { report := .success, certId := some a.c.id, plain := some m.payload } ∧
+    (S.verifyWith cfg m a).1 = (S.onSuccess cfg m).1 := by
+  unfold Station.verifyWith
+  rw [judge_honest hg hm]
+  simp only [beq_self_eq_true, if_true]
+  have := onSuccess_no_error (cfg := cfg) (S := S) hm.reqCertOk
+  cases hos : S.onSuccess cfg m with
+  | mk S' oe =>
+    rw [hos] at this
+    simp only at this
+    subst this
+    exact ⟨rfl, rfl⟩
+
+
+
+
+/-! ### readiness of a receiver for a peer ticket, and its persistence under traffic -/
+
+structure CertGood (c : Cert) : Prop where
+  isAT : c.isAT = true
+  vki : c.vkiVerif = true
+  keyP256 : c.keyP256 = true
+  keyUnc : c.keyUnc = true
+
+/-- the library can verify `c`: its issuer is found and `c` verifies under it -/
+def Resolves (cfg : Cfg) (st : Store) (c : Cert) : Prop :=
+  ∃ i, st.getIssuer c = .ok (some i) ∧ c.verify cfg (some i.c) = true
+
+/-- whatever is stored under `c`'s HashedId8 is `c` itself, verified -/
+def KnownGood (cfg : Cfg) (st : Store) (c : Cert) : Prop :=
+  ∀ a ∈ st.ats, a.c.id = c.id → a.c = c ∧ a.c.verify cfg a.att = true
+
+structure Ready (cfg : Cfg) (st : Store) (c : Cert) : Prop where
+  good : CertGood c
+  res : Resolves cfg st c
+  known : KnownGood cfg st c
+
+theorem find_append_some {l l' : List SC} {h : Nat} {s : SC} (hf : find l h = some s) : find (l ++ l') h = some s := by
+  unfold find at *
+  rw [List.find?_append, hf]; rfl
+
+theorem getIssuer_grows {st st' : Store} (hg : Store.Grows st st') {c : Cert} {i : SC}
+    (h : st.getIssuer c = .ok (some i)) : st'.getIssuer c = .ok (some i) := by
+  unfold Store.getIssuer at *
+  cases hiss : c.issuer with
+  | self => rw [hiss] at h; simp at h
+  | selfOther => rw [hiss] at h; simp at h
+  | other => rw [hiss] at h; simp at h
+  | digest hh =>
+    rw [hiss] at h
+    simp only [Except.ok.injEq] at h ⊢
+    rw [hg.roots]
+    obtain ⟨l, hl⟩ := hg.aas
+    cases hr : find st.roots hh with
+    | some r => rw [hr] at h; exact h
+    | none =>
+      rw [hr] at h
+      simp only at h ⊢
+      rw [hl, find_append_some h]
+
+/-- what a received message can add to the ticket dictionary: verified entries for its own signer certificate -/
+theorem verifySeq1_new {cfg : Cfg} {st st' : Store} {c : Cert} {r : Option SC}
+    (h : st.verifySeq1 cfg c = .ok (st', r)) :
+    ∀ a ∈ st'.ats, a ∈ st.ats ∨ (a.c = c ∧ a.c.verify cfg a.att = true) := by
+  unfold Store.verifySeq1 at h
+  split at h
+  · cases h; exact fun a ha => Or.inl ha
+  · split at h
+    · simp at h
+    · cases h; exact fun a ha => Or.inl ha
+    · rename_i i hi
+      simp only at h
+      split at h
+      · rename_i hv
+        split at h
+        · simp at h
+        · rename_i st2 hadd
+          cases h
+          unfold Store.addAT at hadd
+          split at hadd
+          · cases hadd; exact fun a ha => Or.inl ha
+          · simp only [hi, Except.ok.injEq] at hadd
+            subst hadd
+            intro a ha
+            simp only [List.mem_append, List.mem_singleton] at ha
+            rcases ha with ha | ha
+            · exact Or.inl ha
+            · subst ha; exact Or.inr ⟨rfl, hv⟩
+      · cases h; exact fun a ha => Or.inl ha
+
+theorem verifyMsg_new (cfg : Cfg) (S : Station) (m : Msg) :
+    ∀ a ∈ (S.verifyMsg cfg m).1.store.ats,
+      a ∈ S.store.ats ∨ (∃ c, m.signer = .certs [c] ∧ a.c = c ∧ a.c.verify cfg a.att = true) := by
+  unfold Station.verifyMsg
+  split
+  · split <;> exact fun a ha => Or.inl ha
+  · split
+    · exact fun a ha => Or.inl ha
+    · split
+      · intro a ha; left; simpa using ha
+      · intro a ha; rw [verifyWith_ats] at ha; exact Or.inl ha
+  · rename_i cs hsg
+    split
+    · rename_i c
+      split
+      · exact fun a ha => Or.inl ha
+      · intro a ha; left
+        split at ha <;> simpa using ha
+      · rename_i st a0 hseq
+        intro a ha
+        rw [verifyWith_ats] at ha
+        rcases verifySeq1_new hseq a ha with h | ⟨h1, h2⟩
+        · exact Or.inl h
+        · exact Or.inr ⟨c, hsg, h1, h2⟩
+    · exact fun a ha => Or.inl ha
+
+/-- no HashedId8 clash of the message's signer certificate with ticket `c` -/
+def Msg.noClash (m : Msg) (c : Cert) : Prop := ∀ c', m.signer = .certs [c'] → c'.id = c.id → c' = c
+
+theorem ready_rx {cfg : Cfg} {S : Station} {c : Cert} (hr : Ready cfg S.store c) (m : Msg) (hm : m.noClash c) :
+    Ready cfg (S.verifyMsg cfg m).1.store c := by
+  refine ⟨hr.good, ?_, ?_⟩
+  · obtain ⟨i, hi, hv⟩ := hr.res
+    exact ⟨i, getIssuer_grows (verifyMsg_grows cfg S m) hi, hv⟩
+  · intro a ha hid
+    rcases verifyMsg_new cfg S m a ha with h | ⟨c', hsg, hc, hv⟩
+    · exact hr.known a h hid
+    · have : c' = c := hm c' hsg (by rw [← hc]; exact hid)
+      exact ⟨by rw [hc, this], hv⟩
+
+/-- honest message with the certificate attached: accepted at once by a ready receiver, payload unchanged -/
+theorem accept_certificate {cfg : Cfg} {S : Station} {c : Cert} (hr : Ready cfg S.store c) {m : Msg}
+    (hm : HonestMsg m c) (hsg : m.signer = .certs [c]) :
+    (S.verifyMsg cfg m).2 = .ok { report := .success, certId := some c.id, plain := some m.payload } ∧
+    (∃ a, find (S.verifyMsg cfg m).1.store.ats c.id = some a) := by
+  unfold Station.verifyMsg
+  simp only [hsg]
+  cases hf : find S.store.ats c.id with
+  | some known =>
+    simp only [Store.verifySeq1, hf]
+    obtain ⟨hm1, hm2⟩ := find_some_mem hf
+    obtain ⟨hk1, hk2⟩ := hr.known known hm1 hm2
+    have hg : GoodTicket cfg known := ⟨hk2, hk1 ▸ hr.good.isAT, hk1 ▸ hr.good.vki, hk1 ▸ hr.good.keyP256, hk1 ▸ hr.good.keyUnc⟩
+    have := verifyWith_honest (S := { S with store := S.store }) hg (hk1 ▸ hm)
+    refine ⟨by rw [this.1, hk1], known, ?_⟩
+    have hats := verifyWith_ats cfg { S with store := S.store } m known
+    unfold find at hf ⊢
+    rw [hats]; exact hf
+  | none =>
+    obtain ⟨i, hi, hv⟩ := hr.res
+    have hn := find_none_has hf
+    simp only [Store.verifySeq1, hf, hi, hv, if_true, Store.addAT, hn, Bool.false_eq_true, if_false]
+    have hg : GoodTicket cfg ⟨c, some i.c⟩ := ⟨hv, hr.good.isAT, hr.good.vki, hr.good.keyP256, hr.good.keyUnc⟩
+    have := verifyWith_honest (S := { S with store := { S.store with ats := S.store.ats ++ [⟨c, some i.c⟩] } }) hg hm
+    refine ⟨this.1, ⟨c, some i.c⟩, ?_⟩
+    have hats := verifyWith_ats cfg { S with store := { S.store with ats := S.store.ats ++ [⟨c, some i.c⟩] } } m ⟨c, some i.c⟩
+    rw [hats]
+    unfold find at hf ⊢
+    simp only [List.find?_append, hf, Option.none_or]
+    simp
+
+/-- honest digest-signed message of a known ticket: accepted at once -/
+theorem accept_digest_known {cfg : Cfg} {S : Station} {c : Cert} (hr : Ready cfg S.store c) {m : Msg}
+    (hm : HonestMsg m c) (hsg : m.signer = .digest c.id) (h37 : m.psid ≠ 37) {a : SC}
+    (hf : find S.store.ats c.id = some a) :
+    (S.verifyMsg cfg m).2 = .ok { report := .success, certId := some c.id, plain := some m.payload } := by
+  unfold Station.verifyMsg
+  have : (m.psid == 37) = false := by simpa using h37
+  simp only [hsg, this, Bool.false_eq_true, if_false, hf]
+  obtain ⟨hm1, hm2⟩ := find_some_mem hf
+  obtain ⟨hk1, hk2⟩ := hr.known a hm1 hm2
+  have hg : GoodTicket cfg a := ⟨hk2, hk1 ▸ hr.good.isAT, hk1 ▸ hr.good.vki, hk1 ▸ hr.good.keyP256, hk1 ▸ hr.good.keyUnc⟩
+  have := verifyWith_honest (S := S) hg (hk1 ▸ hm)
+  rw [this.1, hk1]
+
+
+
+
+/-! ### P2PCD bookkeeping -/
+
+/-- the station will ask for ticket `x` (HashedId3) and attach its own certificate in its next CAM -/
+def Asking (S : Station) (x : Nat) : Prop := x ∈ S.unknownAts ∧ S.reqOwn = true
+
+theorem notifyUnknown_asking (S : Station) (h8 : Nat) : Asking (S.notifyUnknown h8) (h3 h8) := by
+  unfold Station.notifyUnknown Asking
+  refine ⟨?_, rfl⟩
+  show h3 h8 ∈ (if S.unknownAts.contains (h3 h8) then S.unknownAts else S.unknownAts ++ [h3 h8])
+  split
+  · rename_i h; simpa using h
+  · simp
+
+theorem notifyUnknown_keeps {S : Station} {x : Nat} (h : Asking S x) (h8 : Nat) : Asking (S.notifyUnknown h8) x := by
+  unfold Station.notifyUnknown Asking
+  refine ⟨?_, rfl⟩
+  show x ∈ (if S.unknownAts.contains (h3 h8) then S.unknownAts else S.unknownAts ++ [h3 h8])
+  split
+  · exact h.1
+  · simp [h.1]
+
+theorem note_keeps {S : Station} {x : Nat} (h : Asking S x) (h8 : Nat) : Asking (S.note h8) x := by
+  unfold Station.note; split
+  · exact notifyUnknown_keeps h h8
+  · exact h
+
+theorem addRequested_fields (S : Station) (x : Nat) :
+    (S.addRequested x).unknownAts = S.unknownAts ∧ (S.addRequested x).reqOwn = S.reqOwn ∧
+    (S.addRequested x).hasSign = S.hasSign := by
+  unfold Station.addRequested; split <;> exact ⟨rfl, rfl, rfl⟩
+
+theorem foldl_addRequested_fields (l : List Nat) (S : Station) :
+    (l.foldl Station.addRequested S).unknownAts = S.unknownAts ∧ (l.foldl Station.addRequested S).reqOwn = S.reqOwn := by
+  induction l generalizing S with
+  | nil => exact ⟨rfl, rfl⟩
+  | cons x xs ih =>
+    simp only [List.foldl_cons]
+    obtain ⟨h1, h2⟩ := ih (S.addRequested x)
+    obtain ⟨h3, h4, _⟩ := addRequested_fields S x
+    exact ⟨h1.trans h3, h2.trans h4⟩
+
+theorem notifyInline_fields (S : Station) (r : List Nat) :
+    (S.notifyInline r).unknownAts = S.unknownAts ∧
+    ((S.notifyInline r).reqOwn = true ↔ (S.reqOwn = true ∨ S.store.own.any (fun o => r.contains (h3 o.c.id)) = true)) := by
+  unfold Station.notifyInline
+  simp only
+  by_cases hc : S.store.own.any (fun o => r.contains (h3 o.c.id)) = true
+  · simp only [hc, if_true]
+    obtain ⟨h1, h2⟩ := foldl_addRequested_fields r { S with reqOwn := true }
+    rw [h1, h2]; simp
+  · have hc' : S.store.own.any (fun o => r.contains (h3 o.c.id)) = false := by simpa using hc
+    simp only [hc', Bool.false_eq_true, if_false]
+    obtain ⟨h1, h2⟩ := foldl_addRequested_fields r S
+    rw [h1, h2]; simp
+
+theorem afterInline_fields (S : Station) (m : Msg) :
+    (S.afterInline m).unknownAts = S.unknownAts ∧ (S.reqOwn = true → (S.afterInline m).reqOwn = true) := by
+  unfold Station.afterInline
+  split
+  · rename_i r _
+    obtain ⟨h1, h2⟩ := notifyInline_fields S r
+    exact ⟨h1, fun h => h2.2 (Or.inl h)⟩
+  · exact ⟨rfl, id⟩
+
+theorem notifyReceivedCa_fields (cfg : Cfg) (S : Station) (c : Cert) :
+    (S.notifyReceivedCa cfg c).1.unknownAts = S.unknownAts.erase (h3 c.id) ∧
+    (S.notifyReceivedCa cfg c).1.reqOwn = S.reqOwn := by
+  unfold Station.notifyReceivedCa
+  simp only
+  split <;> exact ⟨rfl, rfl⟩
+
+/-- the message's requestedCertificate does not collide (HashedId3) with the awaited ticket -/
+def Msg.noCaClash (m : Msg) (x : Nat) : Prop := ∀ c, m.reqCert = some c → h3 c.id ≠ x
+
+theorem onSuccess_asking {cfg : Cfg} {S : Station} {x : Nat} (h : Asking S x) {m : Msg} (hm : m.noCaClash x) :
+    Asking (S.onSuccess cfg m).1 x := by
+  unfold Station.onSuccess
+  split
+  · exact h
+  · obtain ⟨h1, h2⟩ := afterInline_fields S m
+    split
+    · exact ⟨by rw [h1]; exact h.1, h2 h.2⟩
+    · rename_i c hc
+      obtain ⟨h3', h4⟩ := notifyReceivedCa_fields cfg (S.afterInline m) c
+      refine ⟨?_, by rw [h4]; exact h2 h.2⟩
+      rw [h3', h1]
+      exact (List.mem_erase_of_ne (hm c hc).symm).2 h.1
+
+theorem onSuccess_reqOwn {cfg : Cfg} {S : Station} (h : S.reqOwn = true) (m : Msg) :
+    (S.onSuccess cfg m).1.reqOwn = true := by
+  unfold Station.onSuccess
+  split
+  · exact h
+  · obtain ⟨_, h2⟩ := afterInline_fields S m
+    split
+    · exact h2 h
+    · rename_i c hc
+      obtain ⟨_, h4⟩ := notifyReceivedCa_fields cfg (S.afterInline m) c
+      rw [h4]; exact h2 h
+
+theorem verifyWith_asking {cfg : Cfg} {S : Station} {x : Nat} (h : Asking S x) {m : Msg} (hm : m.noCaClash x) (a : SC) :
+    Asking (S.verifyWith cfg m a).1 x := by
+  unfold Station.verifyWith
+  split
+  · exact h
+  · split
+    · have := onSuccess_asking (cfg := cfg) h hm
+      split <;> (rename_i hh; rw [hh] at this; exact this)
+    · exact h
+
+theorem verifyWith_reqOwn {cfg : Cfg} {S : Station} (h : S.reqOwn = true) (m : Msg) (a : SC) :
+    (S.verifyWith cfg m a).1.reqOwn = true := by
+  unfold Station.verifyWith
+  split
+  · exact h
+  · split
+    · have := onSuccess_reqOwn (cfg := cfg) h m
+      split <;> (rename_i hh; rw [hh] at this; exact this)
+    · exact h
+
+/-- receiving anything keeps the pending request (unless a CA certificate with a colliding HashedId3 arrives) -/
+theorem verifyMsg_asking {cfg : Cfg} {S : Station} {x : Nat} (h : Asking S x) {m : Msg} (hm : m.noCaClash x) :
+    Asking (S.verifyMsg cfg m).1 x := by
+  unfold Station.verifyMsg
+  split
+  · split <;> exact h
+  · split
+    · exact h
+    · split
+      · exact note_keeps h _
+      · exact verifyWith_asking h hm _
+  · split
+    · split
+      · exact h
+      · split
+        · exact note_keeps h _
+        · exact h
+      · rename_i st a hseq
+        exact verifyWith_asking (S := { S with store := st }) h hm a
+    · exact h
+
+/-- a request for the own certificate, once noted, survives every reception -/
+theorem verifyMsg_reqOwn {cfg : Cfg} {S : Station} (h : S.reqOwn = true) (m : Msg) :
+    (S.verifyMsg cfg m).1.reqOwn = true := by
+  unfold Station.verifyMsg
+  split
+  · split <;> exact h
+  · split
+    · exact h
+    · split
+      · unfold Station.note; split
+        · rfl
+        · exact h
+      · exact verifyWith_reqOwn h m _
+  · split
+    · split
+      · exact h
+      · split
+        · unfold Station.note; split
+          · rfl
+          · exact h
+        · exact h
+      · rename_i st a hseq
+        exact verifyWith_reqOwn (S := { S with store := st }) h m a
+    · exact h
+
+/-- (step 0) a digest-signed message of an unknown ticket is rejected and makes the receiver ask for it -/
+theorem reject_unknown_digest {cfg : Cfg} {S : Station} (hs : S.hasSign = true) {m : Msg} {h8 : Nat}
+    (hsg : m.signer = .digest h8) (h37 : m.psid ≠ 37) (hun : find S.store.ats h8 = none) :
+    (S.verifyMsg cfg m).2 = .ok { report := .signerCertificateNotFound } ∧
+    Asking (S.verifyMsg cfg m).1 (h3 h8) ∧ (S.verifyMsg cfg m).1.store = S.store ∧
+    (S.verifyMsg cfg m).1.hasSign = S.hasSign := by
+  unfold Station.verifyMsg
+  have : (m.psid == 37) = false := by simpa using h37
+  simp only [hsg, this, Bool.false_eq_true, if_false, hun, Station.note, hs, if_true]
+  exact ⟨trivial, notifyUnknown_asking S h8, rfl, hs⟩
+
+/-- (step 1) a station that is asking puts the request and its own certificate into its next CAM -/
+theorem asking_cam {S S' : Station} {x : Nat} (h : Asking S x) {now psid gt pl : Nat} {m : Msg}
+    (hc : S.signCam now psid gt pl = (S', .ok m)) :
+    ∃ a, Station.presentAt S.store.own psid = .ok (some a) ∧ m.signer = .certs [a.c] ∧
+      (∃ l, m.inlineReq = some l ∧ x ∈ l) ∧ BaseProfile m psid gt pl a ∧ m.genLoc = false := by
+  obtain ⟨a, hp, hb, hl, hinl, _, _, _, _, _, hw⟩ := signCam_ok hc
+  refine ⟨a, hp, ?_, ⟨S.unknownAts, ?_, h.1⟩, hb, hl⟩
+  · rcases hw with ⟨_, h2, _⟩ | ⟨h1, _⟩
+    · exact h2
+    · simp [Station.wantsCert, h.2] at h1
+  · rw [hinl]; unfold Station.inlineField
+    have : S.unknownAts.isEmpty = false := by
+      have h1 := h.1
+      cases hl : S.unknownAts with
+      | nil => rw [hl] at h1; simp at h1
+      | cons _ _ => rfl
+    simp [this]
+
+/-- (step 2) accepting a CAM whose inlineP2pcdRequest names an own ticket makes the station attach its certificate next -/
+theorem request_received {cfg : Cfg} {S : Station} (hs : S.hasSign = true) {m : Msg} {l : List Nat}
+    (hinl : m.inlineReq = some l) {o : SC} (ho : o ∈ S.store.own) (hx : h3 o.c.id ∈ l) :
+    (S.onSuccess cfg m).1.reqOwn = true := by
+  unfold Station.onSuccess
+  simp only [hs, Bool.not_true, Bool.false_eq_true, if_false]
+  have h1 : (S.afterInline m).reqOwn = true := by
+    unfold Station.afterInline
+    simp only [hinl]
+    apply (notifyInline_fields S l).2.2
+    right
+    rw [List.any_eq_true]
+    exact ⟨o, ho, by simpa using hx⟩
+  split
+  · exact h1
+  · rename_i c hc
+    rw [(notifyReceivedCa_fields cfg (S.afterInline m) c).2]; exact h1
+
+/-- (step 3) a station whose certificate was requested signs its next CAM with the certificate, whatever its timer says -/
+theorem requested_cam {S S' : Station} (h : S.reqOwn = true) {now psid gt pl : Nat} {m : Msg}
+    (hc : S.signCam now psid gt pl = (S', .ok m)) :
+    ∃ a, Station.presentAt S.store.own psid = .ok (some a) ∧ m.signer = .certs [a.c] ∧ BaseProfile m psid gt pl a ∧
+      m.genLoc = false ∧ S'.reqOwn = false ∧ S'.lastFull = now := by
+  obtain ⟨a, hp, hb, hl, _, _, _, _, _, _, hw⟩ := signCam_ok hc
+  rcases hw with ⟨_, h2, h3', h4⟩ | ⟨h1, _⟩
+  · exact ⟨a, hp, h2, hb, hl, h4, h3'⟩
+  · simp [Station.wantsCert, h] at h1
+
+
+
+
+/-! ### traffic (receive / sign) operations of the exchange model -/
+
+def Op.isTraffic : Op → Prop
+  | .msg _ | .signCam .. | .signDenm .. | .signOther .. => True
+  | _ => False
+
+def Op.notCam : Op → Prop
+  | .signCam .. => False
+  | _ => True
+
+def Op.noClash (c : Cert) : Op → Prop
+  | .msg m => m.noClash c
+  | _ => True
+
+def Op.noCaClash (x : Nat) : Op → Prop
+  | .msg m => m.noCaClash x
+  | _ => True
+
+theorem foldl_addRequested_hasSign (l : List Nat) (S : Station) :
+    (l.foldl Station.addRequested S).hasSign = S.hasSign := by
+  induction l generalizing S with
+  | nil => rfl
+  | cons x xs ih => simp only [List.foldl_cons]; rw [ih, (addRequested_fields S x).2.2]
+
+theorem onSuccess_hasSign (cfg : Cfg) (S : Station) (m : Msg) : (S.onSuccess cfg m).1.hasSign = S.hasSign := by
+  have hA : (S.afterInline m).hasSign = S.hasSign := by
+    unfold Station.afterInline
+    split
+    · unfold Station.notifyInline; simp only; rw [foldl_addRequested_hasSign]; split <;> rfl
+    · rfl
+  unfold Station.onSuccess
+  split
+  · rfl
+  · split
+    · exact hA
+    · unfold Station.notifyReceivedCa; simp only; split <;> exact hA
+
+theorem verifyWith_hasSign (cfg : Cfg) (S : Station) (m : Msg) (a : SC) : (S.verifyWith cfg m a).1.hasSign = S.hasSign := by
+  unfold Station.verifyWith
+  split
+  · rfl
+  · split
+    · have := onSuccess_hasSign cfg S m
+      split <;> (rename_i h; rw [h] at this; exact this)
+    · rfl
+
+theorem verifyMsg_hasSign (cfg : Cfg) (S : Station) (m : Msg) : (S.verifyMsg cfg m).1.hasSign = S.hasSign := by
+  unfold Station.verifyMsg
+  split
+  · split <;> rfl
+  · split
+    · rfl
+    · split
+      · simp
+      · exact verifyWith_hasSign cfg S m _
+  · split
+    · split
+      · rfl
+      · split <;> simp
+      · rename_i st a hseq
+        exact verifyWith_hasSign cfg { S with store := st } m a
+    · rfl
+
+theorem signCam_fields (S : Station) (now psid gt pl : Nat) :
+    (S.signCam now psid gt pl).1.hasSign = S.hasSign ∧ (S.signCam now psid gt pl).1.unknownAts = S.unknownAts := by
+  unfold Station.signCam
+  have h1 := (popRequested_spec S).1
+  split
+  · rename_i h; rw [h] at h1; simp only at h1; subst h1; exact ⟨rfl, rfl⟩
+  · rename_i S1 rc h
+    rw [h] at h1; simp only at h1; subst h1
+    split
+    · exact ⟨rfl, rfl⟩
+    · exact ⟨rfl, rfl⟩
+    · split <;> exact ⟨rfl, rfl⟩
+
+/-- one traffic operation: own certificates, roots and the sign-service flag never change -/
+theorem traffic_step_fixed {cfg : Cfg} (S : Station) {op : Op} (ht : op.isTraffic) :
+    (S.step cfg op).store.own = S.store.own ∧ (S.step cfg op).hasSign = S.hasSign := by
+  cases op with
+  | msg m => exact ⟨(verifyMsg_grows cfg S m).own, verifyMsg_hasSign cfg S m⟩
+  | signCam now psid gt pl =>
+    exact ⟨by simp [Station.step], (signCam_fields S now psid gt pl).1⟩
+  | signDenm loc psid gt pl =>
+    refine ⟨by simp [Station.step], ?_⟩
+    simp only [Station.step]; unfold Station.signDenm; split
+    · rfl
+    · split <;> rfl
+  | signOther psid gt pl =>
+    refine ⟨by simp [Station.step], ?_⟩
+    simp only [Station.step]; unfold Station.signOther; split <;> rfl
+  | addRoot s => exact absurd ht (by simp [Op.isTraffic])
+  | addAA s => exact absurd ht (by simp [Op.isTraffic])
+  | addAT s => exact absurd ht (by simp [Op.isTraffic])
+  | addOwn s => exact absurd ht (by simp [Op.isTraffic])
+  | vseq cs => exact absurd ht (by simp [Op.isTraffic])
+
+theorem traffic_step_ready {cfg : Cfg} {S : Station} {c : Cert} (hr : Ready cfg S.store c) {op : Op}
+    (ht : op.isTraffic) (hc : op.noClash c) : Ready cfg (S.step cfg op).store c := by
+  cases op with
+  | msg m => exact ready_rx hr m hc
+  | signCam now psid gt pl => simpa [Station.step] using hr
+  | signDenm loc psid gt pl => simpa [Station.step] using hr
+  | signOther psid gt pl => simpa [Station.step] using hr
+  | addRoot s => exact absurd ht (by simp [Op.isTraffic])
+  | addAA s => exact absurd ht (by simp [Op.isTraffic])
+  | addAT s => exact absurd ht (by simp [Op.isTraffic])
+  | addOwn s => exact absurd ht (by simp [Op.isTraffic])
+  | vseq cs => exact absurd ht (by simp [Op.isTraffic])
+
+theorem signDenm_state (S : Station) (loc : Bool) (psid gt pl : Nat) : (S.signDenm loc psid gt pl).1 = S := by
+  unfold Station.signDenm; split
+  · rfl
+  · split <;> rfl
+
+theorem signOther_state (S : Station) (psid gt pl : Nat) : (S.signOther psid gt pl).1 = S := by
+  unfold Station.signOther; split <;> rfl
+
+theorem traffic_step_asking {cfg : Cfg} {S : Station} {x : Nat} (h : Asking S x) {op : Op}
+    (ht : op.isTraffic) (hn : op.notCam) (hc : op.noCaClash x) : Asking (S.step cfg op) x := by
+  cases op with
+  | msg m => exact verifyMsg_asking h hc
+  | signCam now psid gt pl => exact absurd hn (by simp [Op.notCam])
+  | signDenm loc psid gt pl => simp only [Station.step]; rw [signDenm_state]; exact h
+  | signOther psid gt pl => simp only [Station.step]; rw [signOther_state]; exact h
+  | addRoot s => exact absurd ht (by simp [Op.isTraffic])
+  | addAA s => exact absurd ht (by simp [Op.isTraffic])
+  | addAT s => exact absurd ht (by simp [Op.isTraffic])
+  | addOwn s => exact absurd ht (by simp [Op.isTraffic])
+  | vseq cs => exact absurd ht (by simp [Op.isTraffic])
+
+theorem traffic_step_reqOwn {cfg : Cfg} {S : Station} (h : S.reqOwn = true) {op : Op}
+    (ht : op.isTraffic) (hn : op.notCam) : (S.step cfg op).reqOwn = true := by
+  cases op with
+  | msg m => exact verifyMsg_reqOwn h m
+  | signCam now psid gt pl => exact absurd hn (by simp [Op.notCam])
+  | signDenm loc psid gt pl => simp only [Station.step]; rw [signDenm_state]; exact h
+  | signOther psid gt pl => simp only [Station.step]; rw [signOther_state]; exact h
+  | addRoot s => exact absurd ht (by simp [Op.isTraffic])
+  | addAA s => exact absurd ht (by simp [Op.isTraffic])
+  | addAT s => exact absurd ht (by simp [Op.isTraffic])
+  | addOwn s => exact absurd ht (by simp [Op.isTraffic])
+  | vseq cs => exact absurd ht (by simp [Op.isTraffic])
+
+/-! lifted to arbitrary interleavings (lists of operations) -/
+
+theorem run_cons (cfg : Cfg) (S : Station) (op : Op) (ops : List Op) :
+    S.run cfg (op :: ops) = (S.step cfg op).run cfg ops := rfl
+
+theorem traffic_run_fixed {cfg : Cfg} (ops : List Op) (S : Station) (h : ∀ op ∈ ops, op.isTraffic) :
+    (S.run cfg ops).store.own = S.store.own ∧ (S.run cfg ops).hasSign = S.hasSign := by
+  induction ops generalizing S with
+  | nil => exact ⟨rfl, rfl⟩
+  | cons op rest ih =>
+    rw [run_cons]
+    obtain ⟨h1, h2⟩ := ih (S.step cfg op) (fun o ho => h o (by simp [ho]))
+    obtain ⟨h3, h4⟩ := traffic_step_fixed (cfg := cfg) S (h op (by simp))
+    exact ⟨h1.trans h3, h2.trans h4⟩
+
+theorem traffic_run_ready {cfg : Cfg} {c : Cert} (ops : List Op) (S : Station) (hr : Ready cfg S.store c)
+    (h : ∀ op ∈ ops, op.isTraffic ∧ op.noClash c) : Ready cfg (S.run cfg ops).store c := by
+  induction ops generalizing S with
+  | nil => exact hr
+  | cons op rest ih =>
+    rw [run_cons]
+    exact ih _ (traffic_step_ready hr (h op (by simp)).1 (h op (by simp)).2) (fun o ho => h o (by simp [ho]))
+
+theorem traffic_run_asking {cfg : Cfg} {x : Nat} (ops : List Op) (S : Station) (ha : Asking S x)
+    (h : ∀ op ∈ ops, op.isTraffic ∧ op.notCam ∧ op.noCaClash x) : Asking (S.run cfg ops) x := by
+  induction ops generalizing S with
+  | nil => exact ha
+  | cons op rest ih =>
+    rw [run_cons]
+    have := h op (by simp)
+    exact ih _ (traffic_step_asking ha this.1 this.2.1 this.2.2) (fun o ho => h o (by simp [ho]))
+
+theorem traffic_run_reqOwn {cfg : Cfg} (ops : List Op) (S : Station) (ha : S.reqOwn = true)
+    (h : ∀ op ∈ ops, op.isTraffic ∧ op.notCam) : (S.run cfg ops).reqOwn = true := by
+  induction ops generalizing S with
+  | nil => exact ha
+  | cons op rest ih =>
+    rw [run_cons]
+    have := h op (by simp)
+    exact ih _ (traffic_step_reqOwn ha this.1 this.2) (fun o ho => h o (by simp [ho]))
+
+
+
+
+theorem verifySeq2_grows {cfg : Cfg} {st st' : Store} {c aa : Cert} {r : Option SC}
+    (h : st.verifySeq2 cfg c aa = .ok (st', r)) : Store.Grows st st' := by
+  unfold Store.verifySeq2 at h
+  split at h
+  · split at h
+    · cases h; exact Store.Grows.refl _
+    · simp only at h
+      split at h
+      · split at h
+        · simp at h
+        · rename_i st1 hadd1
+          split at h
+          · split at h
+            · simp at h
+            · rename_i st2 hadd2
+              cases h
+              exact (addAA_grows hadd1).trans (addAT_grows hadd2)
+          · cases h; exact addAA_grows hadd1
+      · cases h; exact Store.Grows.refl _
+  · cases h; exact Store.Grows.refl _
+  · cases h; exact Store.Grows.refl _
+  · simp at h
+
+theorem verifySeq_grows {cfg : Cfg} {st st' : Store} {cs : List Cert} {r : Option SC}
+    (h : st.verifySeq cfg cs = .ok (st', r)) : Store.Grows st st' := by
+  unfold Store.verifySeq at h
+  split at h
+  · exact verifySeq1_grows h
+  · exact verifySeq2_grows h
+  · split at h
+    · exact verifySeq2_grows h
+    · cases h; exact Store.Grows.refl _
+  · cases h; exact Store.Grows.refl _
+
+theorem addOwn_roots {cfg : Cfg} {st st' : Store} {s : SC} (h : st.addOwn cfg s = .ok st') : st'.roots = st.roots := by
+  unfold Store.addOwn at h
+  split at h
+  · simp at h
+  · cases h; rfl
+  · simp only [Except.ok.injEq] at h
+    split at h <;> (subst h; rfl)
+
+/-- the root dictionary changes only through `add_root_certificate`, and only by a certificate that verifies -/
+theorem roots_only_by_addRoot (cfg : Cfg) (S : Station) (op : Op) :
+    (S.step cfg op).store.roots = S.store.roots ∨
+    ∃ s, op = .addRoot s ∧ s.c.verify cfg s.att = true ∧ (S.step cfg op).store.roots = put S.store.roots s := by
+  cases op with
+  | addRoot s =>
+    simp only [Station.step, Store.addRoot]
+    by_cases hv : s.c.verify cfg s.att = true
+    · right; exact ⟨s, rfl, hv, by simp [hv]⟩
+    · left; simp [hv]
+  | addAA s =>
+    left; simp only [Station.step]
+    cases h : S.store.addAA cfg s with
+    | error e => rfl
+    | ok st => exact (addAA_grows h).roots
+  | addAT s =>
+    left; simp only [Station.step]
+    cases h : S.store.addAT cfg s with
+    | error e => rfl
+    | ok st => exact (addAT_grows h).roots
+  | addOwn s =>
+    left; simp only [Station.step]
+    cases h : S.store.addOwn cfg s with
+    | error e => rfl
+    | ok st => exact addOwn_roots h
+  | vseq cs =>
+    left; simp only [Station.step]
+    cases h : S.store.verifySeq cfg cs with
+    | error e => rfl
+    | ok r => obtain ⟨st, r⟩ := r; exact (verifySeq_grows h).roots
+  | msg m => left; exact (verifyMsg_grows cfg S m).roots
+  | signCam now psid gt pl => left; simp [Station.step]
+  | signDenm loc psid gt pl => left; simp [Station.step]
+  | signOther psid gt pl => left; simp [Station.step]
 
 
 end FlexModel.Sec
